@@ -127,6 +127,25 @@ def smboEvaluate (cfg : SmboCfg) (s : SmboSt) (score : F) : SmboSt :=
     | none => s.sm
   { s with tr := { t1 with nthTrial := t1.nthTrial + 1 }, sm := sm1.trackY score }
 
+/-- `evaluate` as it can fail: on a candidate array that was built from an EMPTY list (`flat`, shape (0,)) `_remove_position`'s
+    `self.all_pos_comb == position` cannot broadcast (ValueError); with a single dimension it broadcasts and `np.all(…, axis=1)`
+    raises AxisError instead.  (Reached when every row of the candidate grid is infeasible and training failed.) -/
+def smboEvaluateE (cfg : SmboCfg) (s : SmboSt) (score : F) : Except Err SmboSt :=
+  if s.flat ∧ cfg.replacement = false then
+    match s.tr.posNew with
+    | some p => if p.length = 1 then .error (.other "AxisError") else .error .valueError
+    | none => .error (.other "AxisError")
+  else .ok (smboEvaluate cfg s score)
+
+theorem smboEvaluateE_ok {cfg : SmboCfg} {s s' : SmboSt} {score : F} (h : smboEvaluateE cfg s score = .ok s') :
+    smboEvaluate cfg s score = s' := by
+  unfold smboEvaluateE at h
+  split at h
+  · split at h
+    · split at h <;> simp at h
+    · simp at h
+  · simpa using h
+
 /-- `evaluate_init` (under `track_new_score` and `track_y_sample`) -/
 def smboEvalInit (s : SmboSt) (score : F) : SmboSt :=
   let t1 := smboEvalBody (s.tr.setScoreNew score) score
@@ -149,6 +168,6 @@ def smboBackend (cfg : SmboCfg) : Backend SmboSt where
   evalInit s score := .ok (smboEvalInit s score)
   finishInit := smboFinishInit
   iterate := smboIterate cfg
-  evaluate s score := .ok (smboEvaluate cfg s score)
+  evaluate := smboEvaluateE cfg
 
 end GFO
